@@ -286,6 +286,19 @@ Example ex_abort_unpolled :
   /\ check_C12 false [OMk KKill 0; OAbort 0; OSettle] (mkObs [] [HCancelled] (Some (RKilled, 0)) [] (Some 0)) = false
   /\ check_C12 false [OMk KAfter 0; OSettle; OAbort 0] (mkObs [(0%nat, 1, 0)] [HOk] None [] None) = true.
 Proof. repeat split; vm_compute; reflexivity. Qed.
+(* kill_after ends the target at its deadline whatever its state then (here: Stopping, post_stop
+   still running); a Duration::MAX timer never fires and nothing panics; the oracle rejects a
+   kill_after that let the target live past its deadline, and a panicking timer call *)
+Example ex_kill_due_and_huge :
+  observe false true [OMk KKill (4 * ms); OAdv (2 * ms); OStop (RUser 4); OAdv (2 * ms); OAdv (2 * ms); OPOpen; OProbe]
+  = mkObs [] [HUnit] (Some (RKilled, 4000000)) [(6000000, true, [true])] (Some 2000000)
+  /\ check_C12 false [OMk KKill (4 * ms); OAdv (2 * ms); OStop (RUser 4); OAdv (2 * ms); OAdv (2 * ms); OPOpen; OProbe]
+       (mkObs [] [HUnit] (Some (RUser 4, 6000000)) [(6000000, true, [true])] (Some 2000000)) = false
+  /\ observe false false [OMk KAfter 18446744073709551615999999999; OAdv ms; OProbe]
+     = mkObs [] [HPending] None [(1000000, false, [false])] None
+  /\ check_C12 false [OMk KAfter 18446744073709551615999999999; OAdv ms; OProbe]
+       (mkObs [] [HPanic] None [(1000000, false, [true])] None) = false.
+Proof. repeat split; vm_compute; reflexivity. Qed.
 Example ex_oracle :
   check_C12 false [OMk KInterval ms; OAdv ms; OKill; OProbe; OAdv ms; OProbe]
             (observe false false [OMk KInterval ms; OAdv ms; OKill; OProbe; OAdv ms; OProbe]) = true
